@@ -139,6 +139,11 @@ func buildSexpFun(
 	}
 	for i := len(argsyms) - 1; i >= 0; i-- {
 		gen.AddInstruction(PopStackPutEnvInstr{argsyms[i]})
+		if argsyms[i].name == gen.funcname {
+			// a parameter with the function's own name shadows it
+			// in the body: calls of that name are not self calls.
+			gen.funcname = ""
+		}
 	}
 	err := gen.GenerateBegin(funcbody)
 	if err != nil {
@@ -510,6 +515,18 @@ func (gen *Generator) GenerateLet(name string, args []Sexp) error {
 
 	gen.AddInstruction(AddScopeInstr{Name: "runtime " + name})
 	gen.scopes++
+
+	// a binding that shadows the name of the function being compiled:
+	// in its body that name is a local, and a call of it in tail
+	// position is not a call of the function itself.
+	for _, lhs := range lstatements {
+		if lhs.name == gen.funcname {
+			savedFuncname := gen.funcname
+			gen.funcname = ""
+			defer func() { gen.funcname = savedFuncname }()
+			break
+		}
+	}
 
 	// the binding expressions are never in tail position,
 	// only the last form of the body can be.
